@@ -321,7 +321,7 @@ func lsScenario(sc *engine.Scenario, r *engine.Rand, g *progGen) {
 // ---- the lock-step machine -------------------------------------------------------------
 
 type lsMismatch struct {
-	kind   string // cycles, regs, mem, if, ie, halted, flags-low, stray, stuck, undefined
+	kind   string // cycles, regs, mem, buswrite, buswrite-missing, buswrite-cycle, if, ie, halted, flags-low, stray, stuck, undefined
 	detail string
 }
 
@@ -348,6 +348,8 @@ type lockstep struct {
 	ifRefEnd   uint8            // the reference IF at the end of the instruction, before re-synchronisation
 	ppu        dmgref.PPUTiming // reference LCD timing (follows the guest's LCDC writes)
 	mode2Seen  bool             // the reference was in mode 2 at some boundary of the instruction in flight
+
+	realWrites []dmgref.Access // bus writes of the real CPU during the instruction in flight (hook H4)
 
 	// per-instruction callback: return false to stop the run
 	onInstr func(l *lockstep, realCycles int, mism []lsMismatch) bool
@@ -426,6 +428,10 @@ func newLockstep(sc *engine.Scenario, res *engine.Result) *lockstep {
 	img, _ := cartImage(sc)
 	l.cart = dmgref.NewCart(img)
 	m.GuardUndefined = true
+	m.TapBus()
+	m.OnBusWrite = func(a uint16, v uint8) {
+		l.realWrites = append(l.realWrites, dmgref.Access{Cycle: l.k + 1, Write: true, Addr: a, Val: v})
+	}
 	l.ref.Bus = l
 	// quiesce the hardware parties that could raise interrupt lines on their own
 	l.ppu.SwitchOn() // power-on state
@@ -651,6 +657,46 @@ func (l *lockstep) finishInstr() bool {
 		if got != want {
 			mism = append(mism, lsMismatch{"mem", fmt.Sprintf("%s: memory %04x holds %02x, documented %02x", l.describe(), acc.Addr, got, want)})
 		}
+	}
+	// the bus writes the real CPU performed during this instruction (or dispatch), one by one, against
+	// the documented ones: address, value and machine cycle
+	{
+		var want []dmgref.Access
+		for _, acc := range c.Acc {
+			if acc.Write {
+				want = append(want, acc)
+			}
+		}
+		got := l.realWrites
+		n := len(got)
+		if len(want) < n {
+			n = len(want)
+		}
+		for i := 0; i < n; i++ {
+			g, w := got[i], want[i]
+			switch {
+			case g.Addr != w.Addr || g.Val != w.Val:
+				mism = append(mism, lsMismatch{"buswrite", fmt.Sprintf("%s: bus write number %d is %04x<-%02x, documented %04x<-%02x", l.describe(), i+1, g.Addr, g.Val, w.Addr, w.Val)})
+			case g.Cycle != w.Cycle && c.Kind != "instr":
+				// in which of its cycles an interrupt dispatch pushes is not documented by any statement
+				continue
+			case g.Cycle != w.Cycle:
+				mism = append(mism, lsMismatch{"buswrite-cycle", fmt.Sprintf("%s: the write %04x<-%02x happened in machine cycle %d of the instruction, documented %d", l.describe(), g.Addr, g.Val, g.Cycle, w.Cycle)})
+			default:
+				continue
+			}
+			break
+		}
+		if len(mism) == 0 || (mism[len(mism)-1].kind != "buswrite" && mism[len(mism)-1].kind != "buswrite-cycle") {
+			if len(got) < len(want) {
+				w := want[len(got)]
+				mism = append(mism, lsMismatch{"buswrite-missing", fmt.Sprintf("%s: the documented write %04x<-%02x (machine cycle %d) was not performed (%d of %d writes seen on the bus)", l.describe(), w.Addr, w.Val, w.Cycle, len(got), len(want))})
+			} else if len(got) > len(want) {
+				g := got[len(want)]
+				mism = append(mism, lsMismatch{"buswrite", fmt.Sprintf("%s: undocumented bus write %04x<-%02x in machine cycle %d (%d writes documented)", l.describe(), g.Addr, g.Val, g.Cycle, len(want))})
+			}
+		}
+		l.realWrites = l.realWrites[:0]
 	}
 	l.ifRefEnd = l.ifReg
 	if iff := m.IRQ.ReadIF() & 0x1f; iff != l.ifReg {
